@@ -114,7 +114,7 @@ func TestVerifC05HomeChild(t *testing.T) {
 			time.Sleep(250 * time.Millisecond)
 			if cur := ops.Load(); cur != last {
 				last, since = cur, time.Now()
-			} else if time.Since(since) > 6*time.Second {
+			} else if time.Since(since) > 4*time.Second {
 				close(stalled)
 
 				return
@@ -126,6 +126,7 @@ func TestVerifC05HomeChild(t *testing.T) {
 	case <-stalled:
 		buf := make([]byte, 1<<20)
 		buf = buf[:runtime.Stack(buf, true)]
+		_ = os.WriteFile(filepath.Join(dir, "stacks.txt"), buf, 0o644)
 		res.Deadlock = true
 		res.Stuck = c05util.StuckKey(string(buf))
 		res.AdminOps = int(ops.Load())
